@@ -596,6 +596,27 @@ Proof.
   apply (C01_bash_meaning pick fuel v c om os nd a benv en ws p); try assumption; try reflexivity.
   unfold benv. cbn [BashSem.e_wordbreaks]. destruct Hwb as [-> | ->]; reflexivity.
 Qed.
+Check C01_bash_meaning_wordbreaks :
+  forall wb, wb = bash_default_wordbreaks \/ wb = EmptyString ->
+  forall pick fuel v c om os nd a outs ens ws p,
+    let benv := BashSem.mkenv wb outs false in
+    let en := Meaning.mkenv wb ens in
+    sub_tree (v_expr v) = true -> alts_nonempty (v_expr v) = true ->
+    compile_valid pick fuel v = Ok c ->
+    all_tables Bash c om os = Ok (nd, a) -> NoDup om -> valid_literal_order (c_main c) om = true ->
+    sub_orders_ok c os -> subs_deterministic c ->
+    C01_domain (v_expr v) = true -> C01_env_ok (v_expr v) en = true ->
+    plain p = true -> printable_str p = true ->
+    (forall cm cid, Tables.index_of cm (a_commands a) = Some cid ->
+                    Spec.Invocations.spec_candidates (cmd_output benv cid) = candidates en cm) ->
+    ambiguous_run en (start (v_expr v)) ws = false ->
+    greedy_shadow (v_expr v) en ws = false ->
+    match complete (v_expr v) en ws p with
+    | None => exists log, run_from Repaired (d_start (c_main c)) a benv ws p = Ok (mkresult 1 [] log)
+    | Some (req, al) =>
+        exists reply log, run_from Repaired (d_start (c_main c)) a benv ws p = Ok (mkresult 0 reply log)
+                          /\ incl req reply /\ incl reply al
+    end.
 Print Assumptions C01_bash_meaning_wordbreaks.
 
 (** Inhabited: [cmd --x=<U> {{{probe}}}=(v|w) end;] -- an undefined nonterminal and a command inside
